@@ -189,6 +189,23 @@ def run():
     for (x, y) in big_pairs:
         jobs.append((x, y, docs.ALL_OPTS[0]))
         meta.append((n_base, "auto"))
+    # mappings whose values SHARE one object (a YAML anchor / alias, a Python object referenced twice) under the list options:
+    # which key comes first decides which value is "the first occurrence" - and must decide nothing else
+    for si in range(12 if t == "quick" else 60):
+        shared = [r.randint(0, 3) for _ in range(r.randint(3, 5))]
+        k1, k2 = r.sample(("base", "copy", "a", "zz"), 2)
+        d1 = {k1: shared, k2: shared, "n": 1}
+        d2 = {"n": 1, k2: shared, k1: shared}
+        d3 = {k2: shared, "n": 1, k1: shared}
+        other = {k1: shared[1:], k2: list(shared), "n": 1}
+        if si % 3 == 2:
+            inner = {"l": shared}
+            d1, d2, d3 = {k1: inner, k2: inner}, {k2: inner, k1: inner}, {k2: inner, k1: inner, }
+            other = {k1: {"l": shared[1:]}, k2: {"l": list(shared)}}
+        for opts in (docs.ALL_OPTS[1], docs.ALL_OPTS[2], docs.ALL_OPTS[7], docs.ALL_OPTS[0]):
+            for dd in (d1, d2, d3):
+                jobs.append((dd, other, opts))
+                meta.append((n_base + 5000 + si, "%s/%s" % (opts["strategy"], opts["lists"])))
     # XML attributes are a mapping too: the same elements with their attributes written in every order, incl. attributes of
     # the same LOCAL name in different namespaces (two different names), namespaced next to plain ones, xml: / xsi: ones
     apool = ("id", "name", "a:id", "b:id", "a:name", "xml:lang", "xsi:type", "x", "b:x")
